@@ -222,7 +222,36 @@ def imported_modules(prop):
 # =====================================================================================================
 # step 3: correspondence + oracles
 # =====================================================================================================
-OTHER_ENV = {'TZ': 'Pacific/Kiritimati', 'LC_ALL': 'C', 'LANG': 'C', 'PYTHONIOENCODING': 'ascii'}
+OTHER_ENV = {'TZ': 'Pacific/Kiritimati', 'LC_ALL': 'C', 'LANG': 'C', 'PYTHONIOENCODING': 'ascii', 'VERIF_LOGLEVEL': 'DEBUG'}
+
+
+_OTHERS = None
+
+
+def other_interpreters():
+    """other CPython minor versions present in this sandbox that can run the harness (probed once per run); none is required"""
+    global _OTHERS
+    if _OTHERS is None:
+        found = {}
+        import glob
+        for py in sorted(glob.glob('/root/.pyenv/versions/3.*/bin/python')) + ['/usr/bin/python3.11', '/usr/bin/python3']:
+            try:
+                r = subprocess.run([py, '-c', 'import sys, json, struct, enum, zlib; print("%d.%d" % sys.version_info[:2])'], capture_output=True,
+                                   text=True, timeout=20)
+                v = r.stdout.strip()
+                if r.returncode == 0 and v and v != '%d.%d' % sys.version_info[:2] and tuple(map(int, v.split('.'))) >= (3, 8) \
+                        and subprocess.run([PY, '-c', 'import sys; print("%d.%d" % sys.version_info[:2])'], capture_output=True, text=True).stdout.strip() != v:
+                    found.setdefault(v, py)
+            except (OSError, subprocess.SubprocessError, ValueError):
+                continue
+        vs = sorted(found, key=lambda x: tuple(map(int, x.split('.'))))
+        _OTHERS = [found[vs[0]], found[vs[-1]]] if len(vs) > 1 else [found[v] for v in vs]
+    return _OTHERS
+
+
+def clone_size(n):
+    """the size of a job's second and third run: a sixth, at least 40 cases - but never more than the job itself"""
+    return n if n <= 40 else max(40, n // 6)
 
 
 def hashseed_of(job):
@@ -240,7 +269,7 @@ def run_job(job):
         jf, of = os.path.join(d, 'job.json'), os.path.join(d, 'out.json')
         json.dump(job, open(jf, 'w'))
         try:
-            r = sh([PY] + list(job.get('pyflags') or []) + [os.path.join(HARN, 'worker.py'), jf, of], timeout=job.get('timeout', 3000),
+            r = sh([job.get('python') or PY] + list(job.get('pyflags') or []) + [os.path.join(HARN, 'worker.py'), jf, of], timeout=job.get('timeout', 3000),
                    env=dict(os.environ, VERIF_REPO=REPO, PYTHONDONTWRITEBYTECODE='1', PYTHONHASHSEED=str(hashseed_of(job)),
                             **(job.get('env') or {})))
         except subprocess.TimeoutExpired:
@@ -293,11 +322,17 @@ def explore(prop, tier, seed, have_driver, extra_lines=None, scale=1):
     # to refuse something, the model (of the default interpreter) and the code rightly differ.
     for j in list(jobs):
         if j['n'] and not (j.get('profile') or '').startswith('all-') and j.get('profile') != 'bulk':
-            jobs.append(dict(j, n=max(40, j['n'] // 6), seed=f"{j['seed']}-O", pyflags=['-O'], exhaustive=False, lines=j['lines']))
+            jobs.append(dict(j, n=clone_size(j['n']), seed=f"{j['seed']}-O", pyflags=['-O'], exhaustive=False, lines=j['lines']))
             # … and once more in another environment: warnings are errors, the local time zone is far from UTC.  None of that
             # is anything the library should notice: these cases are compared with the model like any other.
-            jobs.append(dict(j, n=max(40, j['n'] // 6), seed=f"{j['seed']}-W", pyflags=['-W', 'error'], env=OTHER_ENV, exhaustive=False,
+            jobs.append(dict(j, n=clone_size(j['n']), seed=f"{j['seed']}-W", pyflags=['-W', 'error', '-bb'], env=OTHER_ENV, exhaustive=False,
                              lines=j['lines']))
+            # … and under another minor version of the interpreter, where the sandbox has one (the oldest and the newest found, in
+            # turns): the package declares python_requires >= 3.7
+            others = other_interpreters()
+            if others:
+                py = others[len(jobs) % len(others)]
+                jobs.append(dict(j, n=clone_size(j['n']), seed=f"{j['seed']}-V", python=py, exhaustive=False, lines=j['lines']))
     jobs = shard(jobs, tier)
     t_jobs = time.time()
     with concurrent.futures.ThreadPoolExecutor(max_workers=14) as ex:
@@ -315,12 +350,14 @@ def explore(prop, tier, seed, have_driver, extra_lines=None, scale=1):
                 c['pyflags'] = j['pyflags']
             if j.get('env'):
                 c['env'] = j['env']
+            if j.get('python'):
+                c['python'] = j['python']
             c['hashseed'] = hashseed_of(j)
             cases.append(c)
     # de-duplicate identical lines (corpus + shards)
     seen, uniq = set(), []
     for c in cases:
-        key = (c['line'], tuple(c.get('pyflags') or ()), bool(c.get('env')))
+        key = (c['line'], tuple(c.get('pyflags') or ()), bool(c.get('env')), c.get('python'))
         if key not in seen:
             seen.add(key)
             uniq.append(c)
@@ -376,10 +413,10 @@ def finish(cases, have_driver, errors, strict=True):
     return len(spec_lines)
 
 
-def evaluate(prop, component, lines, have_driver=True, proj=None, strict=True, pyflags=None, hashseed=None, env=None):
+def evaluate(prop, component, lines, have_driver=True, proj=None, strict=True, pyflags=None, hashseed=None, env=None, python=None):
     """the given lines of one component through the real code, the model and the oracles of `prop`"""
     r = run_job({'component': component, 'lines': list(lines), 'n': 0, 'seed': 0, 'props': [prop], 'pyflags': pyflags, 'hashseed': hashseed,
-                 'env': env})
+                 'env': env, 'python': python})
     if r['error']:
         raise RuntimeError(r['error'])
     cases = r['cases']
@@ -389,6 +426,8 @@ def evaluate(prop, component, lines, have_driver=True, proj=None, strict=True, p
             c['pyflags'] = pyflags
         if env:
             c['env'] = env
+        if python:
+            c['python'] = python
     errors = []
     finish(cases, have_driver, errors, strict=strict)
     if errors:
@@ -478,20 +517,22 @@ def shrink_case(prop, c, r, budget_s=8.0):
         return True
 
     def still(lines):
-        cs = evaluate(prop, comp, lines, have_driver=True, proj=c.get('project'), strict=False, pyflags=c.get('pyflags'), hashseed=c.get('hashseed'), env=c.get('env'))
+        cs = evaluate(prop, comp, lines, have_driver=True, proj=c.get('project'), strict=False, pyflags=c.get('pyflags'), hashseed=c.get('hashseed'), env=c.get('env'), python=c.get('python'))
         by = {x['line']: x for x in cs}
         return [l in by and failing(by[l]) is not None and wellformed(by[l]) for l in lines]
     try:
         line, rounds, tried = shrink.shrink(comp, c['line'], still, budget_s=budget_s)
         if line == c['line']:
             return c, r
-        c2 = evaluate(prop, comp, [line], have_driver=True, proj=c.get('project'), strict=False, pyflags=c.get('pyflags'), hashseed=c.get('hashseed'), env=c.get('env'))[0]
+        c2 = evaluate(prop, comp, [line], have_driver=True, proj=c.get('project'), strict=False, pyflags=c.get('pyflags'), hashseed=c.get('hashseed'), env=c.get('env'), python=c.get('python'))[0]
         r2 = failing(c2)
         if r2 is None:
             return c, r
         c2['hashseed'] = c.get('hashseed')
         if c.get('env'):
             c2['env'] = c['env']
+        if c.get('python'):
+            c2['python'] = c['python']
         c2['shrunk'] = {'original_input': c['line'], 'rounds': rounds, 'candidates_tried': tried}
         return c2, r2
     except Exception:
@@ -507,6 +548,7 @@ def write_replay(prop, kind, case, rec, broken, seed):
           **({'interpreter_flags': case['pyflags']} if case and case.get('pyflags') else {}),
           **({'hashseed': case['hashseed']} if case and case.get('hashseed') is not None else {}),
           **({'environment': case['env']} if case and case.get('env') else {}),
+          **({'interpreter': case['python']} if case and case.get('python') else {}),
           'input': case['line'] if case else None,
           'expected': (rec or {}).get('expected'), 'observed': (rec or {}).get('observed') or (case['real'] if case else None),
           'model': case.get('model') if case else None, 'what': (rec or {}).get('what'),
@@ -662,7 +704,8 @@ def replay(prop, path):
     lake_build(['driver', 'specdriver'])
     try:
         c = evaluate(prop, rp['component'], [rp['input']], have_driver=True, proj=rp.get('project'), strict=False,
-                     pyflags=rp.get('interpreter_flags'), hashseed=rp.get('hashseed'), env=rp.get('environment'))[0]
+                     pyflags=rp.get('interpreter_flags'), hashseed=rp.get('hashseed'), env=rp.get('environment'),
+                     python=rp.get('interpreter') if rp.get('interpreter') and os.path.exists(rp['interpreter']) else None)[0]
     except (RuntimeError, IndexError) as e:
         print('replay could not run: ' + str(e), file=sys.stderr)
         return 2
